@@ -1,6 +1,8 @@
 package h
 
 import (
+	"math"
+
 	geom "github.com/twpayne/go-geom"
 	"github.com/twpayne/go-geom/internal/zzverif/sym"
 	"github.com/twpayne/go-geom/xy"
@@ -29,11 +31,16 @@ func sqDistRel(d2 float64, p, a, b []float64, dim, rel int) bool {
 		}
 		return sym.FLe(x, y)
 	}
-	// interior: dist^2 = da - num^2/den  <=>  d2*den REL da*den - num^2
+	if den == 0 { // zero-length segment (the harness forks here)
+		return cmp(d2, da)
+	}
+	// clamped projection parameter t = num/den; interior: dist^2 = da - num^2/den, stated division free
+	// as d2*den REL da*den - num^2
+	t := num / den
 	return sym.And(
-		sym.Implies(sym.Or(sym.FEq(den, 0), sym.FLe(num, 0)), cmp(d2, da)),
-		sym.Implies(sym.And(sym.Not(sym.FEq(den, 0)), sym.FLe(den, num)), cmp(d2, db)),
-		sym.Implies(sym.And(sym.Not(sym.FEq(den, 0)), sym.FLt(0, num), sym.FLt(num, den)), cmp(d2*den, da*den-num*num)))
+		sym.Implies(sym.FLe(t, 0), cmp(d2, da)),
+		sym.Implies(sym.FLe(1, t), cmp(d2, db)),
+		sym.Implies(sym.And(sym.FLt(0, t), sym.FLt(t, 1)), cmp(d2*den, da*den-num*num)))
 }
 
 func realCoord(name string, dim, k int) geom.Coord {
@@ -59,7 +66,79 @@ func HC15_PointLine2D() {
 	sym.Assert(sqDistRel(d*d, p, a, b, 2, 0), "DistanceFromPointToLine^2 is the exact squared point-segment distance")
 	d2 := xy.DistanceFromPointToLine(p, b, a)
 	sym.Assert(sym.FEq(d*d, d2*d2), "independent of the direction of the segment")
+	// facts used by the summary in the segment-segment / linestring harnesses
+	sym.Assert(sym.And(sym.FLe(d*d, sq(p[0]-a[0])+sq(p[1]-a[1])), sym.FLe(d*d, sq(p[0]-b[0])+sq(p[1]-b[1]))), "not larger than the distance to either endpoint")
+	sym.Assert(sym.FEq(d, 0) == onSeg2(p, a, b), "zero exactly when the point lies on the segment")
 	sym.Cover("end")
+}
+
+func onSeg2(p, a, b []float64) bool {
+	return sym.And(sym.FEq(orient2(a, b, p), 0), inBox(p, a, b))
+}
+
+// ---- summaries (justified by HC15_PointLine2D / HC15_Point3D) ----
+
+func nativeDist(v []float64) float64 {
+	n := len(v) / 2
+	var s float64
+	for k := 0; k < n; k++ {
+		s += sq(v[k] - v[n+k])
+	}
+	return math.Sqrt(s)
+}
+
+func nativePointSeg(v []float64) float64 {
+	n := len(v) / 3
+	p, a, b := v[:n], v[n:2*n], v[2*n:]
+	var den, num float64
+	for k := 0; k < n; k++ {
+		den += sq(b[k] - a[k])
+		num += (p[k] - a[k]) * (b[k] - a[k])
+	}
+	t := 0.0
+	if den != 0 {
+		t = num / den
+	}
+	if t < 0 {
+		t = 0
+	}
+	if t > 1 {
+		t = 1
+	}
+	var s float64
+	for k := 0; k < n; k++ {
+		s += sq(p[k] - a[k] - t*(b[k]-a[k]))
+	}
+	return math.Sqrt(s)
+}
+
+// ufDist: Euclidean distance of two points as an uninterpreted E(p,q) >= 0.
+func ufDist(p, q []float64, dim int) float64 {
+	args := append(append([]float64{}, p[:dim]...), q[:dim]...)
+	e := sym.UFReal("E"+sym.Itoa(dim), nativeDist, args...)
+	sym.Assume(sym.FLe(0, e))
+	return e
+}
+
+// ufPointSeg: point-segment distance as an uninterpreted D(p;a,b) with the lemma's facts:
+// 0 <= D <= E(p,a), D <= E(p,b); in 2D additionally D == 0 <=> p on [a,b].
+func ufPointSeg(p, a, b []float64, dim int) float64 {
+	args := append(append(append([]float64{}, p[:dim]...), a[:dim]...), b[:dim]...)
+	d := sym.UFReal("D"+sym.Itoa(dim), nativePointSeg, args...)
+	sym.Assume(sym.And(sym.FLe(0, d), sym.FLe(d, ufDist(p, a, dim)), sym.FLe(d, ufDist(p, b, dim))))
+	if dim == 2 {
+		sym.Assume(sym.FEq(d, 0) == onSeg2(p, a, b))
+	}
+	return d
+}
+
+func useDistanceSummaries2D() {
+	sym.Replace("github.com/twpayne/go-geom/xy.DistanceFromPointToLine", func(p, a, b geom.Coord) float64 { return ufPointSeg(p, a, b, 2) })
+	sym.Replace("github.com/twpayne/go-geom/xy/internal.Distance2D", func(p, q geom.Coord) float64 { return ufDist(p, q, 2) })
+}
+
+func useDistanceSummaries3D() {
+	sym.Replace("github.com/twpayne/go-geom/xyz.DistancePointToLine", func(p, a, b geom.Coord) float64 { return ufPointSeg(p, a, b, 3) })
 }
 
 var _ = register("HC15_Perpendicular2D", HC15_Perpendicular2D)
@@ -88,16 +167,18 @@ func HC15_PointLineString2D() {
 	}
 	p := realCoord("p", 2, c15K)
 	sym.Freeze(line)
+	useDistanceSummaries2D()
 	d := xy.DistanceFromPointToLineString(lay, p, line)
 	sym.Assert(sym.FLe(0, d), "distance is non-negative")
 	if n == 1 {
-		sym.Assert(sym.FEq(d*d, sq(p[0]-line[0])+sq(p[1]-line[1])), "single vertex: distance to it")
+		sym.Assert(sym.FEq(d, ufDist(p, line[0:2], 2)), "single vertex: distance to it")
 	} else {
 		le, eq := []bool{true}, []bool{}
 		for i := 1; i < n; i++ {
 			a, b := line[(i-1)*stride:(i-1)*stride+2], line[i*stride:i*stride+2]
-			le = append(le, sqDistRel(d*d, p, a, b, 2, 1))
-			eq = append(eq, sqDistRel(d*d, p, a, b, 2, 0))
+			di := ufPointSeg(p, a, b, 2)
+			le = append(le, sym.FLe(d, di))
+			eq = append(eq, sym.FEq(d, di))
 		}
 		sym.Assert(sym.And(sym.And(le...), sym.Or(eq...)), "distance to a linestring is the minimum over its segments")
 	}
@@ -127,13 +208,14 @@ var _ = register("HC15_LineLine2D", HC15_LineLine2D)
 
 func HC15_LineLine2D() {
 	a, b, c, d := realCoord("a", 2, c15K), realCoord("b", 2, c15K), realCoord("c", 2, c15K), realCoord("d", 2, c15K)
+	useDistanceSummaries2D()
 	r := xy.DistanceFromLineToLine(a, b, c, d)
 	meet := segmentsMeet(a, b, c, d)
-	r2 := r * r
 	sym.Assert(sym.FLe(0, r), "distance is non-negative")
 	sym.Assert(sym.Implies(meet, sym.FEq(r, 0)), "zero when the segments touch or cross")
-	le := sym.And(sqDistRel(r2, a, c, d, 2, 1), sqDistRel(r2, b, c, d, 2, 1), sqDistRel(r2, c, a, b, 2, 1), sqDistRel(r2, d, a, b, 2, 1))
-	eq := sym.Or(sqDistRel(r2, a, c, d, 2, 0), sqDistRel(r2, b, c, d, 2, 0), sqDistRel(r2, c, a, b, 2, 0), sqDistRel(r2, d, a, b, 2, 0))
+	d1, d2, d3, d4 := ufPointSeg(a, c, d, 2), ufPointSeg(b, c, d, 2), ufPointSeg(c, a, b, 2), ufPointSeg(d, a, b, 2)
+	le := sym.And(sym.FLe(r, d1), sym.FLe(r, d2), sym.FLe(r, d3), sym.FLe(r, d4))
+	eq := sym.Or(sym.FEq(r, d1), sym.FEq(r, d2), sym.FEq(r, d3), sym.FEq(r, d4))
 	sym.Assert(sym.Implies(sym.Not(meet), sym.And(le, eq)), "disjoint segments: the minimum of the four endpoint-segment distances")
 	sym.Cover("end")
 }
@@ -142,6 +224,7 @@ var _ = register("HC15_LineLine2DSym", HC15_LineLine2DSym)
 
 func HC15_LineLine2DSym() {
 	a, b, c, d := realCoord("a", 2, c15K), realCoord("b", 2, c15K), realCoord("c", 2, c15K), realCoord("d", 2, c15K)
+	useDistanceSummaries2D()
 	r := xy.DistanceFromLineToLine(a, b, c, d)
 	var r2 float64
 	if sym.Flip("swap") {
@@ -149,7 +232,9 @@ func HC15_LineLine2DSym() {
 	} else {
 		r2 = xy.DistanceFromLineToLine(b, a, c, d)
 	}
-	sym.Assert(sym.FEq(r*r, r2*r2), "independent of argument order and segment direction")
+	// the summary D(p;a,b) is direction independent (HC15_PointLine2D): state it for the four pairs used
+	sym.Assume(sym.And(sym.FEq(ufPointSeg(c, a, b, 2), ufPointSeg(c, b, a, 2)), sym.FEq(ufPointSeg(d, a, b, 2), ufPointSeg(d, b, a, 2))))
+	sym.Assert(sym.FEq(r, r2), "independent of argument order and segment direction")
 	sym.Cover("end")
 }
 
@@ -177,10 +262,10 @@ func HC15_LineLine3D() {
 	K := sym.Param("K", sym.Pick(6, 10))
 	sym.Bound("ordinate magnitude bits", K)
 	a, b, c, d := realCoord("a", 3, K), realCoord("b", 3, K), realCoord("c", 3, K), realCoord("d", 3, K)
+	useDistanceSummaries3D()
 	r := xyz.DistanceLineToLine(a, b, c, d)
-	r2 := r * r
 	sym.Assert(sym.FLe(0, r), "distance is non-negative")
-	sym.Assert(sym.And(sqDistRel(r2, a, c, d, 3, 1), sqDistRel(r2, b, c, d, 3, 1), sqDistRel(r2, c, a, b, 3, 1), sqDistRel(r2, d, a, b, 3, 1)),
+	sym.Assert(sym.And(sym.FLe(r, ufPointSeg(a, c, d, 3)), sym.FLe(r, ufPointSeg(b, c, d, 3)), sym.FLe(r, ufPointSeg(c, a, b, 3)), sym.FLe(r, ufPointSeg(d, a, b, 3))),
 		"not larger than any endpoint-segment distance")
 	sym.Cover("end")
 }
@@ -190,6 +275,7 @@ var _ = register("HC15_LineLine3DSym", HC15_LineLine3DSym)
 func HC15_LineLine3DSym() {
 	K := sym.Param("K", sym.Pick(6, 10))
 	a, b, c, d := realCoord("a", 3, K), realCoord("b", 3, K), realCoord("c", 3, K), realCoord("d", 3, K)
+	useDistanceSummaries3D()
 	r := xyz.DistanceLineToLine(a, b, c, d)
 	var r2 float64
 	if sym.Flip("swap") {
@@ -197,6 +283,54 @@ func HC15_LineLine3DSym() {
 	} else {
 		r2 = xyz.DistanceLineToLine(b, a, c, d)
 	}
-	sym.Assert(sym.FEq(r*r, r2*r2), "independent of argument order and segment direction")
+	sym.Assume(sym.And(sym.FEq(ufPointSeg(c, a, b, 3), ufPointSeg(c, b, a, 3)), sym.FEq(ufPointSeg(d, a, b, 3), ufPointSeg(d, b, a, 3))))
+	sym.Assert(sym.FEq(r, r2), "independent of argument order and segment direction")
+	sym.Cover("end")
+}
+
+var _ = register("HC15_Degenerate3D", HC15_Degenerate3D)
+
+// HC15_Degenerate3D: zero-length segments: the result is the point-segment (or point-point) distance,
+// never a non-finite value.
+func HC15_Degenerate3D() {
+	K := 10
+	a, b, c := realCoord("a", 3, K), realCoord("b", 3, K), realCoord("c", 3, K)
+	useDistanceSummaries3D()
+	var r, want float64
+	switch sym.Choose("which", 0, 2) {
+	case 0: // first segment is the point c
+		r = xyz.DistanceLineToLine(c, c, a, b)
+		want = ufPointSeg(c, a, b, 3)
+	case 1: // second segment is the point c, the first one is a proper segment
+		sym.Assume(sym.Not(sym.And(sym.FEq(a[0], b[0]), sym.FEq(a[1], b[1]), sym.FEq(a[2], b[2]))))
+		r = xyz.DistanceLineToLine(a, b, c, c)
+		want = ufPointSeg(c, a, b, 3)
+	default: // both are points
+		r = xyz.DistanceLineToLine(a, a, c, c)
+		want = ufPointSeg(a, c, c, 3)
+	}
+	sym.Assert(sym.FEq(r, want), "a zero-length segment behaves as a point")
+	sym.Cover("end")
+}
+
+var _ = register("HC15_LineLine3DSlice", HC15_LineLine3DSlice)
+
+// HC15_LineLine3DSlice: three of the four endpoints fixed (a few concrete skew configurations), the
+// fourth an arbitrary real point: the result is not larger than any endpoint-segment distance and
+// does not depend on the argument order. (The fully symbolic 12-variable query is out of nlsat's reach.)
+func HC15_LineLine3DSlice() {
+	K := 4
+	sym.Bound("free endpoint magnitude bits", K)
+	cfg := [][3]geom.Coord{
+		{{4, -3, -2}, {-2, -4, 4}, {3, -1, -2}},
+		{{0, 0, 0}, {4, 0, 0}, {1, 2, 1}},
+		{{1, 1, 1}, {-3, 2, 0}, {2, -2, 3}},
+	}[sym.Choose("configuration", 0, 2)]
+	a, b, c := cfg[0], cfg[1], cfg[2]
+	d := realCoord("d", 3, K)
+	useDistanceSummaries3D()
+	r := xyz.DistanceLineToLine(a, b, c, d)
+	sym.Assert(sym.And(sym.FLe(0, r), sym.FLe(r, ufPointSeg(a, c, d, 3)), sym.FLe(r, ufPointSeg(b, c, d, 3)), sym.FLe(r, ufPointSeg(c, a, b, 3)), sym.FLe(r, ufPointSeg(d, a, b, 3))),
+		"not larger than any endpoint-segment distance")
 	sym.Cover("end")
 }
